@@ -144,7 +144,7 @@ impl File {
     #[verifier::external_body]
     pub fn create(p: &Path, Tracked(w): Tracked<&mut World>) -> (r: std::result::Result<File, io::Error>)
         ensures
-            final(w).errno == old(w).errno && final(w).eintr_left == old(w).eintr_left && final(w).tolerated == old(w).tolerated
+            final(w).eexist == old(w).eexist && final(w).errno == old(w).errno && final(w).eintr_left == old(w).eintr_left && final(w).tolerated == old(w).tolerated
                 && final(w).errors_sent == old(w).errors_sent && final(w).announced == old(w).announced && final(w).reported == old(w).reported,
             match r {
                 Ok(f) => {
@@ -173,17 +173,22 @@ impl File {
 pub mod fs {
     use super::*;
     pub use super::fs_filetype::FileType;
-    /// rename(2): the entry moves; the inode and its content are untouched
+    /// rename(2): the *entry* moves: every spelling of the old entry stops resolving, `b` now designates the object; inodes and contents untouched.
+    /// (Two spellings of one entry necessarily reach the same inode.)
     #[verifier::external_body]
     pub fn rename(a: &Path, b: Path, Tracked(w): Tracked<&mut World>) -> (r: std::result::Result<(), io::Error>)
-        ensures final(w).files == old(w).files, final(w).cursor == old(w).cursor,
+        ensures final(w).files == old(w).files, final(w).cursor == old(w).cursor, final(w).eexist == old(w).eexist,
             final(w).errno == old(w).errno && final(w).eintr_left == old(w).eintr_left && final(w).tolerated == old(w).tolerated
                 && final(w).errors_sent == old(w).errors_sent && final(w).announced == old(w).announced && final(w).reported == old(w).reported,
+            forall|k: PathKey| #[trigger] old(w).paths.contains_key(k) && old(w).paths.contains_key(a.key()) && old(w).paths[k].entry == old(w).paths[a.key()].entry
+                ==> old(w).paths[k].inode == old(w).paths[a.key()].inode,
             match r {
                 Ok(_) => {
                     &&& final(w).faults == old(w).faults
                     &&& old(w).paths.contains_key(a.key())
-                    &&& final(w).paths == old(w).paths.remove(a.key()).insert(b.key(), old(w).paths[a.key()])
+                    &&& final(w).paths.contains_key(b.key()) && final(w).paths[b.key()] == old(w).paths[a.key()]
+                    &&& (forall|k: PathKey| k != b.key() ==> (#[trigger] final(w).paths.contains_key(k) <==> (old(w).paths.contains_key(k) && old(w).paths[k].entry != old(w).paths[a.key()].entry)))
+                    &&& (forall|k: PathKey| k != b.key() && #[trigger] final(w).paths.contains_key(k) ==> final(w).paths[k] == old(w).paths[k])
                     &&& final(w).trace == old(w).trace.push(Event::Rename(a.key(), b.key()))
                 },
                 Err(_) => final(w).faults == old(w).faults + 1 && final(w).paths == old(w).paths && final(w).trace == old(w).trace,
@@ -198,12 +203,20 @@ pub open spec fn fr_ns(a: World, b: World) -> bool {
     && a.errors_sent == b.errors_sent && a.announced == b.announced && a.reported == b.reported
 }
 
+/// unlink(2): removes the directory *entry*; every spelling that designates that entry stops resolving, everything else is untouched.
+/// (Two spellings of one entry necessarily reach the same inode.)
 #[verifier::external_body]
 pub fn remove_file(p: &Path, Tracked(w): Tracked<&mut World>) -> (r: std::result::Result<(), io::Error>)
-    ensures fr_ns(*old(w), *final(w)),
+    ensures fr_ns(*old(w), *final(w)), final(w).eexist == old(w).eexist,
+        forall|k: PathKey| #[trigger] old(w).paths.contains_key(k) && old(w).paths.contains_key(p.key()) && old(w).paths[k].entry == old(w).paths[p.key()].entry
+            ==> old(w).paths[k].inode == old(w).paths[p.key()].inode,
         match r {
-            Ok(_) => final(w).faults == old(w).faults && final(w).paths == old(w).paths.remove(p.key())
-                && final(w).trace == old(w).trace.push(Event::Remove(p.key())),
+            Ok(_) => {
+                &&& final(w).faults == old(w).faults && old(w).paths.contains_key(p.key())
+                &&& (forall|k: PathKey| #[trigger] final(w).paths.contains_key(k) <==> (old(w).paths.contains_key(k) && old(w).paths[k].entry != old(w).paths[p.key()].entry))
+                &&& (forall|k: PathKey| #[trigger] final(w).paths.contains_key(k) ==> final(w).paths[k] == old(w).paths[k])
+                &&& final(w).trace == old(w).trace.push(Event::Remove(p.key()))
+            },
             Err(_) => final(w).faults == old(w).faults + 1 && final(w).paths == old(w).paths && final(w).trace == old(w).trace,
         },
 { unimplemented!() }
@@ -211,7 +224,8 @@ pub fn remove_file(p: &Path, Tracked(w): Tracked<&mut World>) -> (r: std::result
 /// symlink(2): fails with EEXIST when `at` exists
 #[verifier::external_body]
 pub fn symlink(text: &Path, at: &Path, Tracked(w): Tracked<&mut World>) -> (r: std::result::Result<(), io::Error>)
-    ensures fr_ns(*old(w), *final(w)),
+    ensures fr_ns(*old(w), *final(w)), final(w).eexist == old(w).eexist + (if r is Err && old(w).paths.contains_key(at.key()) { 1nat } else { 0 }),
+        old(w).paths.contains_key(at.key()) ==> r is Err,
         match r {
             Ok(_) => {
                 &&& final(w).faults == old(w).faults && !old(w).paths.contains_key(at.key())
@@ -225,7 +239,7 @@ pub fn symlink(text: &Path, at: &Path, Tracked(w): Tracked<&mut World>) -> (r: s
 
 #[verifier::external_body]
 pub fn create_dir_all(p: &Path, Tracked(w): Tracked<&mut World>) -> (r: std::result::Result<(), io::Error>)
-    ensures fr_ns(*old(w), *final(w)),
+    ensures fr_ns(*old(w), *final(w)), final(w).eexist == old(w).eexist,
         match r {
             Ok(_) => {
                 &&& final(w).faults == old(w).faults && is_dir_m(final(w).paths, p.key())
@@ -285,6 +299,8 @@ pub const CWD: Cwd = Cwd { };
 #[verifier::external_body]
 pub fn mknodat(dirfd: Cwd, p: &Path, ftype: rustix_fs::FileType, mode: Mode, dev: u64, Tracked(w): Tracked<&mut World>) -> (r: std::result::Result<(), Errno>)
     ensures fr_ns(*old(w), *final(w)),
+        final(w).eexist == old(w).eexist + (if r is Err && old(w).paths.contains_key(p.key()) { 1nat } else { 0 }),
+        old(w).paths.contains_key(p.key()) ==> r is Err,
         match r {
             Ok(_) => {
                 &&& final(w).faults == old(w).faults && !old(w).paths.contains_key(p.key())
@@ -296,3 +312,44 @@ pub fn mknodat(dirfd: Cwd, p: &Path, ftype: rustix_fs::FileType, mode: Mode, dev
             Err(_) => final(w).faults == old(w).faults + 1 && final(w).paths == old(w).paths && final(w).trace == old(w).trace,
         },
 { unimplemented!() }
+
+/// std::fs::OpenOptions (builder).  `open` follows links; O_CREAT creates a fresh empty file when the path does not resolve;
+/// O_TRUNC empties the inode the path resolves to; without O_TRUNC an existing file keeps its content.
+pub struct OpenOptions { pub rd: bool, pub wr: bool, pub cr: bool, pub tr: bool, pub ap: bool, pub cn: bool }
+impl OpenOptions {
+    pub fn new() -> (r: OpenOptions) ensures !r.rd && !r.wr && !r.cr && !r.tr && !r.ap && !r.cn { OpenOptions { rd: false, wr: false, cr: false, tr: false, ap: false, cn: false } }
+    pub fn read(self, v: bool) -> (r: OpenOptions) ensures r == (OpenOptions { rd: v, ..self }) { OpenOptions { rd: v, ..self } }
+    pub fn write(self, v: bool) -> (r: OpenOptions) ensures r == (OpenOptions { wr: v, ..self }) { OpenOptions { wr: v, ..self } }
+    pub fn create(self, v: bool) -> (r: OpenOptions) ensures r == (OpenOptions { cr: v, ..self }) { OpenOptions { cr: v, ..self } }
+    pub fn truncate(self, v: bool) -> (r: OpenOptions) ensures r == (OpenOptions { tr: v, ..self }) { OpenOptions { tr: v, ..self } }
+    pub fn append(self, v: bool) -> (r: OpenOptions) ensures r == (OpenOptions { ap: v, ..self }) { OpenOptions { ap: v, ..self } }
+    pub fn create_new(self, v: bool) -> (r: OpenOptions) ensures r == (OpenOptions { cn: v, ..self }) { OpenOptions { cn: v, ..self } }
+    #[verifier::external_body]
+    pub fn open(&self, p: &Path, Tracked(w): Tracked<&mut World>) -> (r: std::result::Result<File, io::Error>)
+        ensures
+            final(w).eexist == old(w).eexist && final(w).errno == old(w).errno && final(w).eintr_left == old(w).eintr_left && final(w).tolerated == old(w).tolerated
+                && final(w).errors_sent == old(w).errors_sent && final(w).announced == old(w).announced && final(w).reported == old(w).reported,
+            match r {
+                Ok(f) => {
+                    let k = p.key(); let i = f.inode();
+                    &&& final(w).faults == old(w).faults
+                    &&& !old(w).cursor.contains_key(f.id()) && final(w).cursor == old(w).cursor.insert(f.id(), 0)
+                    &&& (exists_m(old(w).paths, k) ==> {
+                            &&& !self.cn && i == old(w).paths[k].inode && final(w).paths == old(w).paths
+                            &&& final(w).files == (if self.tr && self.wr { old(w).files.insert(i, fs_truncate(old(w).files[i], 0)) } else { old(w).files })
+                            &&& final(w).trace == old(w).trace.push(if self.tr && self.wr { Event::CreateTrunc(k, i) } else { Event::Open(k) })
+                        })
+                    &&& (!exists_m(old(w).paths, k) ==> {
+                            &&& (self.cr || self.cn) && !old(w).files.contains_key(i)
+                            &&& final(w).paths == old(w).paths.insert(k, Node { kind: if old(w).paths.contains_key(k) { old(w).paths[k].kind } else { NodeKind::File },
+                                    inode: i, reach: true, tkind: NodeKind::File, ..final(w).paths[k] })
+                            &&& final(w).files == old(w).files.insert(i, final(w).files[i])
+                            &&& final(w).files[i].bytes.len() == 0 && final(w).files[i].data == ISet::<int>::empty()
+                            &&& final(w).trace == old(w).trace.push(Event::CreateTrunc(k, i))
+                        })
+                },
+                Err(_) => final(w).faults == old(w).faults + 1 && final(w).files == old(w).files && final(w).paths == old(w).paths
+                    && final(w).cursor == old(w).cursor && final(w).trace == old(w).trace,
+            },
+    { unimplemented!() }
+}
